@@ -21,7 +21,8 @@ RULE = ("Case = one tagged_data / feature_data call.  Reference arrays of rank 1
         "ending on a sample, between samples, shorter than a step, beyond the stored data}; positions shorter than the rank; "
         "Tag and MultiTag (1-D and 2-D position arrays); both stop rules; tag unit / dimension unit over 21x21 SI prefixes of "
         "s, V, Hz, m, S with powers 1, 2, 3, -1 (plus unit-less, unit on a set dimension, unit-less dimension, different base unit, compound tag unit); features tagged / "
-        "indexed / untagged.  Distinct by (descriptor kinds, position classes, extent classes, stop rule, prefix pair class, "
+        "indexed / untagged; ticks that are large compared with their spacing (2^16, 2^20 + k/8); units, and positions / extents of multi-tags, restated through "
+        "another handle (re-pointed to new arrays, rewritten in place) before the first handle is asked again.  Distinct by (descriptor kinds, position classes, extent classes, stop rule, prefix pair class, "
         "Tag|MultiTag, call, expected outcome class); trivial = none.")
 ASSUMPTIONS = ["region boundaries inside the library's documented float tolerance band of a sample are not generated (A3): every boundary is "
                "robustly on a sample or at least 5% of the local spacing away; sample indices stay below 100",
